@@ -627,7 +627,9 @@ def gen_all():
 
     # ---- client struct shapes for the auto-trait model (C19) ---------------------------------------
     TY_MAP = [
-        (r"ClientConfig", "Ty.leaf .clientConfig"),
+        (r"ClientConfig", "Ty.named .clientConfig"),
+        (r"SocketAddr", "Ty.leaf .plain"), (r"ProtocolStrategy", "Ty.leaf .plain"), (r"Recursion", "Ty.leaf .plain"),
+        (r"EDns", "Ty.leaf .plain"), (r"(?:arrayvec::)?ArrayString<[A-Za-z0-9_]+>", "Ty.leaf .plain"),
         (r"UdpSocket", "Ty.leaf .udpSocket"),
         (r"TcpStream", "Ty.leaf .tcpStream"),
         (r"Vec<u8>", "Ty.leaf .vecU8"),
@@ -638,6 +640,15 @@ def gen_all():
         (r"str", "Ty.leaf .str"), (r"\[u8\]", "Ty.leaf .sliceU8"),
     ]
 
+    # `type X = Y;` aliases of the configuration module (cfg-gated ones included: every variant of the
+    # struct has to be Send + Sync)
+    ALIASES = {}
+    try:
+        for am in re.finditer(r"\btype\s+(\w+)\s*=\s*([^;]+);", strip_comments(read("src/clients/config/client_config.rs"))):
+            ALIASES[am.group(1)] = " ".join(am.group(2).split())
+    except OSError:
+        pass
+
     def ty_of(text):
         t = text.strip()
         m = re.fullmatch(r"&\s*(?:'\w+\s+)?mut\s+(.*)", t)
@@ -646,6 +657,11 @@ def gen_all():
         m = re.fullmatch(r"&\s*(?:'\w+\s+)?(.*)", t)
         if m:
             return "(Ty.ref false %s)" % ty_of(m.group(1))
+        m = re.fullmatch(r"Option<(.*)>", t)
+        if m:
+            return ty_of(m.group(1))          # `Option<T>` has an auto trait iff `T` has it
+        if t in ALIASES:
+            return ty_of(ALIASES[t])
         for pat, lean in TY_MAP:
             if re.fullmatch(pat, t):
                 return "(%s)" % lean
@@ -658,6 +674,7 @@ def gen_all():
             if not m:
                 raise ParseError("struct %s not found in %s" % (name, path))
             body = src[m.end():matching_brace(src, m.end() - 1) - 1]
+            body = re.sub(r"#\[[^\]]*\]", "", body)     # field attributes (cfg-gated fields are kept)
             fields = []
             for part in body.split(","):
                 part = part.strip()
@@ -677,7 +694,7 @@ def gen_all():
     e("  | plain | clientConfig | udpSocket | tcpStream | vecU8 | arrayVecU8 | str | sliceU8")
     e("deriving DecidableEq, Repr")
     e("inductive SName where")
-    e("  | client | clientImpl | clientCtx")
+    e("  | client | clientImpl | clientCtx | clientConfig")
     e("deriving DecidableEq, Repr")
     e("inductive Ty where")
     e("  | leaf (l : Leaf) | ref (mutable : Bool) (t : Ty) | named (n : SName) | unknown (text : String)")
@@ -687,6 +704,7 @@ def gen_all():
     struct_fields("templates/async_client_impl.rs", "ClientImpl", "ASYNC_CLIENT_IMPL")
     struct_fields("templates/async_client_impl.rs", "ClientCtx", "ASYNC_CLIENT_CTX")
     struct_fields("templates/client.rs", "Client", "CLIENT")
+    struct_fields("src/clients/config/client_config.rs", "ClientConfig", "CLIENT_CONFIG")
     e("")
 
     # ---- allocation-site inventory (C20) -------------------------------------------------------
